@@ -905,6 +905,7 @@ def run_scenario(scenario, seed=0, prefix=None, mode="random", preempt=0, preemp
     run.trace = s.trace
     run.status = s.status
     run.choices = [c for _, c in ch.log]
+    run.choice_log = list(ch.log)          # (number of ready threads, index chosen) per scheduling decision
     run.option_counts = [n for n, _ in ch.log]
     run.now = s.now
     run.blocked = s.blocked_threads()
